@@ -355,10 +355,23 @@ def disconnect_record(ctx: Ctx, rule: str):
                 if (a.subject == s and a.op == "is" and a.value is None) else
                 (False if (a.subject == s and a.op == "truthy") else None)):
             ok = True
-    if not ok or not all(g.always_followed(c, ld) for c in clears):
+    if not ok or not all(g.always_followed(c, ld) or g.dominated(c, ld) for c in clears):
         ctx.fail("remove_peer_connection:disconnect_reason", rem.loc(),
                  "disconnect_reason is not stored from the caller's reason when (and only when) "
                  "it is still unset")
+    # the removal can run on a connection's reader thread while the I/O thread decides about
+    # the next dial from (connection, last_disconnect, disconnect_reason): the peer counts as
+    # unconnected only once the record of the loss is complete
+    ctx.inst("remove_peer_connection:record-before-clear")
+    for c in clears:
+        if not (isinstance(c.ast.value, ast.Constant) and c.ast.value.value is None):
+            continue
+        if ld and not g.dominated(c, ld):
+            ctx.fail("remove_peer_connection:record-before-clear", g.loc(c),
+                     "Peer.connection is cleared before last_disconnect (and the reason) are stored: "
+                     "_reconnect_peers on the I/O thread can see 'no connection' together with the time "
+                     "stamp of the previous loss and dial at once instead of after the reconnect wait; "
+                     "the late stores then land on a peer that already owns a new connection")
     # the reason that is stored is a reason: the parameter it comes from has a default that is
     # one of the DISCONNECT_REASON constants in both removal functions, and no caller passes None
     # ("None" is what the record means before the first disconnect)
@@ -1554,9 +1567,14 @@ def clock_agreement(ctx: Ctx, rule: str, attrs: dict):
                 ctx.error(f"{cname}.{rn} not found", rule=rule)
                 continue
             ctx.use(fi)
+            # `now - self.<attr>`, or `v = self.<attr>` ... `now - v` (the stamp read once)
+            local = {t.id for x in ast.walk(fi.node) if isinstance(x, ast.Assign)
+                     and isinstance(x.value, ast.Attribute) and x.value.attr == attr
+                     for t in x.targets if isinstance(t, ast.Name)}
             for x in ast.walk(fi.node):
-                if isinstance(x, ast.BinOp) and isinstance(x.op, ast.Sub) and isinstance(x.right, ast.Attribute) \
-                        and x.right.attr == attr:
+                if isinstance(x, ast.BinOp) and isinstance(x.op, ast.Sub) and (
+                        (isinstance(x.right, ast.Attribute) and x.right.attr == attr)
+                        or (isinstance(x.right, ast.Name) and x.right.id in local)):
                     r[f"{fi.qualname}"] = clock_sources(model, fi.module, x.left, ci)
         ctx.inst(cons, rule=rule, sample={"writers": {k: sorted(v) for k, v in w.items()},
                                           "readers": {k: sorted(v) for k, v in r.items()}})
@@ -2367,7 +2385,7 @@ def application_delivery_chain(ctx: Ctx, rule: str):
     model = ctx.model
     app = model.cls("node.application", "Application")
     ctx.rule(rule, "every request handed to an application reaches its handle_request (or is "
-                   "answered by the application machinery): no silent early exit on the way", floor=4)
+                   "answered by the application machinery): no silent early exit on the way", floor=6)
     classes = [app] + model.subclasses(app)
 
     def must_pass(f, starts_pred, goal_pred, what, cons, via_loop=False):
@@ -2421,6 +2439,47 @@ def application_delivery_chain(ctx: Ctx, rule: str):
     must_pass(p, None, lambda n: n.has_call("self.handle_request") or n.has_call(
         lambda nm, c: nm == "self.handle_request"),
               "calls handle_request", "ThreadingApplication._process_recv_msg:delivers")
+    # "5012 when handling fails": whatever ends the handler - also what is not an `Exception`
+    # (SystemExit, asyncio.CancelledError) - the handler thread builds the error answer
+    cons = "ThreadingApplication._process_recv_msg:handler#base-exception"
+    ctx.inst(cons, rule=rule)
+    par = A.parents(p.node)
+    for c in A.walk_no_nested(p.node):
+        if isinstance(c, ast.Call) and A.call_name(c) == "self.handle_request":
+            cur, ok = c, False
+            while cur in par:
+                up = par[cur]
+                if isinstance(up, ast.Try) and any(cur is b for b in up.body):
+                    for h in up.handlers:
+                        if (h.type is None or ast.unparse(h.type) == "BaseException") and any(
+                                isinstance(x, ast.Call) and A.call_name(x).endswith("generate_answer")
+                                for x in ast.walk(h)):
+                            ok = True
+                    break
+                cur = up
+            if not ok:
+                ctx.fail(cons, p.loc(c), "the handler thread catches `Exception` only around handle_request: a "
+                         "handler that ends with SystemExit or asyncio.CancelledError returns its thread slot "
+                         "but its request is never answered (a plain Application gets 5012 from the node in "
+                         "the same situation)", rule=rule,
+                         expected="except BaseException: build the 5012 answer", observed="narrower handler")
+    # ... and a request whose handler thread cannot be started is answered, like one for which
+    # no slot is free
+    cons = "ThreadingApplication._wait_for_recv_msg:start-failure-answered"
+    ctx.inst(cons, rule=rule)
+    gw = cfg_of(w, inline=False, exc_everywhere=True)
+    starts_ = [n for n in gw.nodes if n.has_call(lambda nm, c: nm.endswith(".start"))]
+    answers_ = [n for n in gw.nodes if n.has_call(lambda nm, c: nm.endswith("send_answer"))]
+    heads_ = [n for n in gw.nodes if n.kind == "loop"]
+    for st in starts_:
+        hs = [d for l, d in st.succ if l == "exc" and d.kind == "handler"]
+        for h in hs:
+            r = gw.reach([h], blocked=answers_, skip_labels=("exc",))
+            if any(hd in r for hd in heads_) or gw.exit in r:
+                ctx.fail(cons, gw.loc(h), "when Thread.start() fails ('can't start new thread') the consumer goes "
+                         "for the next message without answering this one: the request is neither handled "
+                         "nor answered (the branch for 'no free slot' next to it answers 3004)", rule=rule,
+                         expected="send_answer(...) on the failure path", observed="a path to the loop head without it")
 
 
 # ---------------------------------------------------------------------------------------------
@@ -2439,7 +2498,33 @@ def single_transmit_gate(ctx: Ctx, rule: str):
     if sm is None:
         raise AnalysisError("Node.send_message not found")
     ctx.use(sm)
-    ctx.rule(rule, "add_out_msg and _record_answer are called by Node.send_message only", floor=2)
+    ctx.rule(rule, "add_out_msg and _record_answer are called by Node.send_message only; the origin "
+                   "record is read with one tolerant look-up", floor=3)
+    # _record_answer runs on the thread that submits the answer while the node thread may be
+    # removing the connection and sweeping the origin table: the record is read with ONE tolerant
+    # look-up (.get / .pop with default), not tested with `in` and then subscripted - the
+    # KeyError would surface from send_answer in place of NotRoutable
+    ra = nc.methods.get("_record_answer")
+    cons = "_record_answer:origin-record-read-once"
+    ctx.inst(cons, rule=rule)
+    if ra is not None:
+        ctx.use(ra)
+        par_ = A.parents(ra.node)
+        for x in A.walk_no_nested(ra.node):
+            if isinstance(x, ast.Subscript) and isinstance(x.ctx, (ast.Load, ast.Del)) \
+                    and A.dotted(x.value) == "self._origin_waiting_answer":
+                cur, caught = x, False
+                while cur in par_:
+                    cur = par_[cur]
+                    if isinstance(cur, ast.Try) and any("KeyError" in ast.unparse(h.type) or h.type is None
+                                                        for h in cur.handlers if True):
+                        caught = True
+                if not caught:
+                    ctx.fail(cons, ra.loc(x), f"`{ast.unparse(x)}` subscripts the origin table after a separate "
+                             f"membership test: the removal of the connection (another thread) can sweep the "
+                             f"entry in between, and Application.send_answer fails with KeyError instead of "
+                             f"NotRoutable", rule=rule, expected="one look-up: .get(key) / .pop(key, None)",
+                             observed="`in` test + subscript")
     for meth in ("add_out_msg", "_record_answer"):
         sites = [s for s in call_sites(model, meth) if ".node" in s.func.module.name]
         ctx.inst(f"{meth}:callers", rule=rule, sample=[s.where for s in sites])
